@@ -78,7 +78,13 @@ def compile_props(rel_v: str, timeout: int = 900) -> dict:
     path = os.path.join(COQ, rel_v)
     t0 = time.time()
     try:
-        r = subprocess.run(["coqc", "-Q", COQ, "ES", path], capture_output=True, text=True, timeout=timeout, cwd=COQ)
+        # compiled into a private output file: several checks may compile the same Props file at the same time
+        outdir = os.path.join(VERIF, "build", "props", str(os.getpid()))
+        os.makedirs(outdir, exist_ok=True)
+        vo = os.path.join(outdir, os.path.basename(rel_v) + "o")
+        r = subprocess.run(["coqc", "-Q", COQ, "ES", "-noglob", "-o", vo, path], capture_output=True, text=True, timeout=timeout, cwd=COQ)
+        import shutil
+        shutil.rmtree(outdir, ignore_errors=True)
         out = r.stdout + r.stderr
         ok = r.returncode == 0
     except subprocess.TimeoutExpired:
